@@ -17,7 +17,9 @@ RULE = ('family = one generated pipeline (source, 0-3 upstream stages, one prefe
         'first iterate a different pipeline with the same parallel configuration in the '
         'same run. Every 60th family '
         'is systematic: a tiny workload under the non-preemptive baseline schedule and '
-        'ALL schedules with exactly one forced context switch.')
+        'ALL schedules with exactly one forced context switch; in the thorough tier '
+        'every 3000th family enumerates all schedules with at most TWO forced switches '
+        'of a n=2 workload.')
 PROBES = ['another_pipeline_used_first_in_the_same_run', 'endless_input_first_k_compared',
           'all_single_preemption_schedules_of_a_tiny_workload', 'items_refused',
           'later_task_finished_first', 'several_hundred_examples_behind_a_pool',
@@ -40,6 +42,26 @@ TINY_CORE = [
     (3, [{'op': 'slice', 'sl': [1, 2]}, {'op': 'cache'},
          {'op': 'prefetch', 'w': 2, 'b': 2, 'backend': 't'}]),
 ]
+
+
+TWO_DESCS = [
+    [{'op': 'prefetch', 'w': 1, 'b': 1, 'backend': 't'}],
+    [{'op': 'prefetch', 'w': 2, 'b': 2, 'backend': 't'}],
+    [{'op': 'parmap', 'id': 'p', 'w': 1, 'b': 1, 'backend': 't'}],
+    [{'op': 'parmap', 'id': 'p', 'w': 2, 'b': 2, 'backend': 't'}],
+    [{'op': 'prefetch', 'w': 1, 'b': 1, 'backend': 't', 'catch': True}],
+]
+
+
+def gen_systematic_two(rng):
+    """thorough tier: ALL schedules with at most two forced switches of a n=2 workload"""
+    import json as _json
+    desc = {'source': {'kind': rng.choice(['list', 'dict']), 'n': 2},
+            'stages': [{'op': 'map', 'id': 'u0'}] +
+            _json.loads(_json.dumps(rng.choice(TWO_DESCS)))}
+    base = {'desc': desc, 'epochs': 1, 'items': False, 'cost_seed': None, 'think_seed': 0,
+            'think_max': 0, 'trace': ['parallel_utils'], 'systematic': 2}
+    return parprops.two_preemption_cases(base, parrun.run_par_case)
 
 
 def gen_systematic(rng):
@@ -87,6 +109,8 @@ def gen_large(rng):
 
 
 def gen(rng, tier, index):
+    if tier == 'thorough' and index % 3000 == 2999:
+        return gen_systematic_two(rng)
     if index % 100 == 99:
         return gen_large(rng)
     if index % 60 == 59:
@@ -187,6 +211,8 @@ def run(case):
     out = parprops.base_outcome(case, res)
     if case.get('large'):
         out['probes']['several_hundred_examples_behind_a_pool'] = 1
+    if case.get('systematic') == 2:
+        out['fired']['systematic_two_preemptions'] = 1
     if case.get('systematic'):
         out['fired']['systematic_one_preemption'] = 1
         out['probes']['all_single_preemption_schedules_of_a_tiny_workload'] = 1
